@@ -5,7 +5,7 @@
 #   prints the scratch root (contains cfemm/bin, _b/…/lib*.a) on the last line.
 # plain: -O2 -DXFEMM_VERIF ; san: ASan+UBSan on C++ only, -DXFEMM_VERIF ;
 # off: guard off (used by hooks.baseline_off_cmd).
-# Cached by a SHA-256 over the sources; at most 2 trees per flavour are kept.
+# Cached by a SHA-256 over the sources; at most 3 trees per flavour are kept (trees in use are never removed).
 set -euo pipefail
 FLAVOUR="${1:-plain}"
 REPO="${XFEMM_REPO:-/repo}"
@@ -36,6 +36,8 @@ cmake -G Ninja -S "$DIR/cfemm" -B "$DIR/_b" -DCMAKE_BUILD_TYPE=$BT \
   && cmake --build "$DIR/_b" -j"${XFEMM_VERIF_JOBS:-16}"
 } >"$DIR/build.log" 2>&1 || { echo "BUILD FAILED, see $DIR/build.log" >&2; tail -30 "$DIR/build.log" >&2; exit 3; }
 touch "$DIR/.ok"
-# keep at most 2 trees of this flavour
-ls -dt "$SCRATCH/$FLAVOUR"-* 2>/dev/null | tail -n +3 | xargs -r rm -rf
+# keep at most 3 trees of this flavour, and never remove one that was used within the last 30 minutes (another check may be running on it)
+for OLD in $(ls -dt "$SCRATCH/$FLAVOUR"-* 2>/dev/null | tail -n +4); do
+  [ -n "$(find "$OLD/.ok" -mmin +30 2>/dev/null)" ] && rm -rf "$OLD"
+done
 echo "$DIR"
